@@ -53,6 +53,22 @@ def main(argv):
             mod.run(res)
         except core.Inconclusive as e:
             res.inconclusive.append(str(e))
+        except (core.HarnessDied, core.OpPanicked, RuntimeError) as e:
+            for part in getattr(e, "partial", []):
+                if isinstance(part, core.Result):
+                    res.merge(part)
+            if isinstance(e, core.HarnessDied):
+                res.inconclusive.append("harness process died unexpectedly: %s %s" % (e, e.stderr[-300:]))
+            elif isinstance(e, core.OpPanicked):
+                if e.in_library():
+                    res.add("unlisted:panic", {"op": e.op, "args": e.opargs, "panic": e.msg, "loc": e.loc},
+                            {"op": e.op, "args": e.opargs, "payload_hex": e.payload.hex()})
+                else:
+                    res.inconclusive.append("harness defect: %s" % e)
+            else:
+                import traceback
+                traceback.print_exc()
+                res.inconclusive.append("monitor error: %s: %s" % (type(e).__name__, str(e)[:300]))
         except core.HarnessDied as e:
             res.inconclusive.append("harness process died unexpectedly: %s %s" % (e, e.stderr[-300:]))
         except core.OpPanicked as e:
